@@ -437,5 +437,6 @@ func retryable(err error) bool {
 
 	return errors.Is(err, ErrConnectionClosed) ||
 		errors.Is(err, ErrNotAvailableStreams) ||
-		errors.Is(err, ErrNoMoreStreamIDs)
+		errors.Is(err, ErrNoMoreStreamIDs) ||
+		errors.Is(err, ErrUnprocessed)
 }
